@@ -279,7 +279,7 @@ class Track:
             if len(self.note_offs) == 0:
                 self.is_finished = True
 
-        self.current_time += self.tick_duration
+        self.current_time = self.timeline.time_after_tick(self.current_time)
 
     def _duration_to_ticks(self, duration: float) -> int:
         """
